@@ -276,7 +276,7 @@ def read_solve(repo):
     out = {}
     for with_rate in (False, True):
         red = []
-        S = Sym(src, rel, {"hardening.R": "hR", "hardening.dR": "hdR", "rate.inverse": "r_inv", "rate.dinverse": "r_dinv"}, red)
+        S = Sym(src, rel, {"hardening.R": "hR", "hardening.dR": "hdR", "rate.inverse": "r_inv", "rate.dinverse": "r_dinv", "rate.rate": "r_rate"}, red)
         names = [a.arg for a in fn.args.args]
         need = ["eigen", "sigTr_e_pg", "pOld_e_pg", "hardening", "sigma_y", "rate", "dt", "tol", "maxIter"]
         if names != need:
@@ -344,6 +344,37 @@ def read_solve(repo):
                         res["state_at_break"] = dict(S.env)
                     else:
                         fail(st, "if-statement `%s`" % seg, rel)
+                elif isinstance(st, ast.For) and not in_loop and ast.get_source_segment(src, st.iter) != "range(maxIter)":
+                    # a start-up loop before the Newton loop: accepted only if all it does to theta
+                    # is scale it by a literal factor in (0, 1] at some points
+                    if loop_seen or st.orelse:
+                        fail(st, "loop after the Newton loop", rel)
+                    scaled = False
+                    for sub in st.body:
+                        if isinstance(sub, ast.Assign) and len(sub.targets) == 1 and isinstance(sub.targets[0], ast.Name) and sub.targets[0].id == theta_name:
+                            v = sub.value
+                            okf = False
+                            if isinstance(v, ast.Call) and S.dotted(v.func) == "np.where" and len(v.args) == 3 and isinstance(v.args[2], ast.Name) and v.args[2].id == theta_name and isinstance(v.args[1], ast.BinOp) and isinstance(v.args[1].op, ast.Mult):
+                                a, b = v.args[1].left, v.args[1].right
+                                for k, t in ((a, b), (b, a)):
+                                    if isinstance(k, ast.Constant) and isinstance(k.value, (int, float)) and 0 < k.value <= 1 and isinstance(t, ast.Name) and t.id == theta_name:
+                                        okf = True
+                            if not okf or scaled:
+                                fail(sub, "start-up loop may only scale theta by a literal in (0, 1]", rel)
+                            scaled = True
+                        elif isinstance(sub, ast.Assign) and len(sub.targets) == 1:
+                            tg = sub.targets[0]
+                            names_ = [e.id for e in (tg.elts if isinstance(tg, ast.Tuple) else [tg]) if isinstance(e, ast.Name)]
+                            if theta_name in names_ or "active_e_pg" in names_ or "pOld_e_pg" in names_ or "y_e_pg" in names_:
+                                fail(sub, "start-up loop assigns %s" % names_, rel)
+                        elif isinstance(sub, ast.If) and len(sub.body) == 1 and isinstance(sub.body[0], ast.Break) and not sub.orelse:
+                            pass
+                        elif isinstance(sub, ast.Expr) and isinstance(sub.value, ast.Constant):
+                            pass
+                        else:
+                            fail(sub, "statement %s in the start-up loop" % type(sub).__name__, rel)
+                    if scaled:
+                        S.env[theta_name] = ("*", ("v", "c_pull"), S.env[theta_name])
                 elif isinstance(st, ast.For) and not in_loop:
                     it = ast.get_source_segment(src, st.iter)
                     if it != "range(maxIter)" or st.orelse:
@@ -353,6 +384,7 @@ def read_solve(repo):
                     loop_seen = True
                     # loop-carried variables become symbols
                     res["active"] = S.env.get("active_e_pg")
+                    res["start"] = S.env[theta_name]
                     pre = dict(S.env)
                     S.env[theta_name] = ("v", "theta")
                     carried = {n.targets[0].id for n in ast.walk(st) if isinstance(n, ast.Assign) and isinstance(n.targets[0], ast.Name)}
@@ -373,7 +405,9 @@ def read_solve(repo):
                     if not (isinstance(st.value, ast.Call) and S.dotted(st.value.func) == "Return"):
                         fail(st, "Solve must return Return(...)", rel)
                     fields = ["sig", "dGamma", "phi", "theta", "y", "d", "slope", "drdtheta", "active"]
-                    if len(st.value.args) != len(fields):
+                    if len(st.value.args) == len(fields) + 1:
+                        fields = fields + ["converged"]
+                    if len(st.value.args) != len(fields) or st.value.keywords:
                         fail(st, "Return arity", rel)
                     for f, a in zip(fields, st.value.args):
                         res["ret_" + f] = S.ex(a)
@@ -606,9 +640,38 @@ def rebinds_before_store(repo):
 
 
 # ---------------------------------------------------------------------------------------------
+def read_spectral_flag(repo):
+    """What Behavior.__Spectral returns as `converged`: 'ones' (unconditional) or 'solve'."""
+    tree, src, rel = parse(repo, "EasyFEA/Models/InElastic/_behavior.py")
+    fn = find_func(tree, "__Spectral", "Behavior")
+    ret = [s_ for s_ in fn.body if isinstance(s_, ast.Return)]
+    if len(ret) != 1 or not isinstance(ret[0].value, ast.Tuple) or len(ret[0].value.elts) != 4:
+        fail(fn, "__Spectral must return (sig, C_alg, z, converged)", rel)
+    e = ret[0].value.elts[3]
+    if isinstance(e, ast.Name):
+        for s_ in fn.body:
+            if isinstance(s_, ast.Assign) and isinstance(s_.targets[0], ast.Name) and s_.targets[0].id == e.id:
+                e = s_.value
+    seg = ast.get_source_segment(src, e) or ""
+    pnew = None
+    for s_ in fn.body:
+        if isinstance(s_, ast.Assign) and isinstance(s_.targets[0], ast.Subscript):
+            sseg = ast.get_source_segment(src, s_.targets[0])
+            if "A.start" in sseg:
+                pnew = ast.get_source_segment(src, s_.value)
+    if pnew is None or pnew.replace(" ", "") != "pOld_e_pg+res.dGamma":
+        fail(fn, "__Spectral must store p_new = pOld + res.dGamma (found %r)" % pnew, rel)
+    if seg.replace(" ", "").startswith("np.ones("):
+        return {"kind": "ones", "line": ret[0].lineno, "file": rel}
+    if "res.converged" in seg and "|" not in seg and "ones" not in seg:
+        return {"kind": "solve", "line": ret[0].lineno, "file": rel}
+    fail(ret[0], "unrecognised convergence flag `%s`" % seg, rel)
+
+
 def read_all(repo):
     return {"phi": read_phi(repo), "solve": read_solve(repo), "yield": read_yield(repo),
-            "writers": read_state_writers(repo), "arg_stores": rebinds_before_store(repo)}
+            "writers": read_state_writers(repo), "arg_stores": rebinds_before_store(repo),
+            "flag": read_spectral_flag(repo)}
 
 
 def emit_coq(T):
@@ -634,6 +697,16 @@ def emit_coq(T):
             raise TranslateError("%s: the break test must be `np.max(...) < bound`" % so["file"])
         L.append(define("gen_small_%s" % tag, ("lt", br[1][1], br[2]), o, ret="bool"))
         L.append(define("gen_dGamma_%s" % tag, r["ret_dGamma"], ["theta", "phi"]))
+        so_ = ["c_pull", "phi0", "pOld", "sigma_y", "dt", "hR", "r_rate"]
+        L.append(define("gen_start_%s" % tag, r["start"], so_))
+        cv = r.get("ret_converged")
+        if T["flag"]["kind"] == "ones" or cv is None:
+            cv = None
+        if cv is None:
+            # __Spectral claims convergence at every point, whatever the loop did
+            L.append("Definition gen_converged_%s %s : bool := true." % (tag, " ".join("(%s : %s)" % (n, "bool" if n == "active" else ("R -> R" if n.startswith("h") or n.startswith("r_") else "R")) for n in o)))
+        else:
+            L.append(define("gen_converged_%s" % tag, cv, o, ret="bool"))
     a = so["norate"]["active"]
     L.append(define("gen_active", a, ["phi0", "pOld", "sigma_y", "hR"], ret="bool"))
     L.append(define("gen_sig_eig", so["norate"]["sig_eig"], ["y", "lam", "theta"]))
